@@ -271,9 +271,9 @@ MANIFEST_TEXT = {
         "technique": "Lean 4 proof by induction over I/O programs (fault propagation, eof-mapping) + exhaustive fault enumeration against the real crates",
     },
     "C06": {
-        "text": "Lean theorems about the reader-stack model: nested reads/skips never cross an enclosing chunk's remaining body, consumed bytes are accounted on every enclosing level, extracted constants and FourCCs are the model's. The equivalence accepted <-> Grammar (a recursive-descent recogniser written from the property text) is evaluated on the real code, in both directions, over exhaustive chunk sequences x 32 flag sets (file level and inside ANMF), framing / size / padding / truncation families on seek-based and strict readers, RIFF sizes near 2^32 on sparse streams, and libwebp encoder + muxer output; the model must agree with webpsan on every case.",
-        "note": "Partial: the grammar equivalence is decided per generated case on the implementation, not yet by a theorem. The check found F1 (truncated file accepted on seek-based readers), F2 (lossless frames checked against the canvas instead of the frame) and F7 (largest RIFF size the format allows rejected), repaired in /repo. Trusted: see evidence.",
-        "technique": "Lean 4 proof of reader-stack lemmas + exhaustive small-sequence differential check against a declarative grammar",
+        "text": "Lean theorem C06_sound (SOUNDNESS, for EVERY stream, both Config values and both kinds of cursor): whatever the model of webpsan accepts, the independent recogniser Grammar (Spec/WebpGrammar.lean, a recursive-descent recogniser written from the property text and the container specification) accepts: one RIFF/WEBP container whose declared size accounts for every input byte (not truncated, nothing trailing, within the format's limit), every chunk inside its parent with odd sizes followed by a zero pad byte, the chunk sequence VP8 | VP8L | VP8X [ICCP] (ANIM ANMF+ | [ALPH] VP8|VP8L) [EXIF] [XMP] with only unknown chunks after it (and after the image inside an ANMF frame, only when allow_unknown_chunks), VP8X flags matching exactly the chunks present, VP8X/ANIM of their exact size, reserved bits zero, ALPH never combined with VP8L, lossless images and alpha planes valid for the canvas (still) or for their ANMF frame (animated). Proved with partial-correctness triples over the three-level chunk-reader stack in absolute stream offsets (Lemmas/WebpRel.lean: every reader operation, tilings of a region by chunks, the Open / Closed / Peeked states of a level, the unknown-chunk loops, the frame loop, the extended format, the file level), byte-level lemmas about the regenerated chunk schemas (Lemmas/WebpCodecRel.lean) and a pure half matching the established facts with the recogniser (Lemmas/WebpGrammarRel.lean). Further theorems about the reader-stack model: nested reads/skips never cross an enclosing chunk's remaining body, consumed bytes are accounted on every enclosing level, extracted constants and FourCCs are the model's. The converse (Grammar with valid lossless payloads => accepted) and accepted => Grammar again are evaluated on the real code over exhaustive chunk sequences x 32 flag sets (file level and inside ANMF), framing / size / padding / truncation families on seek-based and strict readers, RIFF sizes near 2^32 on sparse streams, and libwebp encoder + muxer output; the model must agree with webpsan on every case.",
+        "note": "Partial: accepted => Grammar is a theorem of the model; the converse direction is decided per generated case on the implementation. The proof attempt exposed F10 (a frame's lossless alpha validated against the canvas dimensions, repaired in /repo 41e7bf8); the check found F1 (truncated file accepted on seek-based readers), F2 (lossless frames checked against the canvas instead of the frame) and F7 (largest RIFF size the format allows rejected), repaired in /repo. Trusted: see evidence.trusted_base.",
+        "technique": "Lean 4 proof: relational (partial-correctness) program logic over the reader stack tying every accepted run to an independent grammar recogniser; exhaustive differential correspondence in both directions",
     },
     "C19": {
         "text": "Lean theorems (simulation through 'absolute bit index = 8*dropped + position; buffer ++ unread = remaining bytes'): fill_buf preserves the abstraction and position and leaves >= 8*cap-7 bits or everything; read(n) and read_huffman through the buffer return exactly what the whole-string reader returns, report end of data iff the whole string is exhausted, and re-establish the abstraction - for every capacity with n+8 <= 8*cap resp. longest+8 <= 8*cap, every input and every chunking (invisible to read_to_end); the sub-image loop's read-ahead is <= 81 bits < 8*16-7. Correspondence: public BitBufReader API at capacities 16..64 and 4096 under random field sequences and short-read patterns against both the buffered model and the whole-string reader; in situ via the capacity hook, webpsan's verdict at nine capacities must equal the verdict at 4096 and the ideal model's.",
